@@ -77,6 +77,23 @@ def call(api, op, args):
 
     a = dict(OPS[op][1])
     a.update(args or {})
+    if a.get("by_keyword"):
+        # the documented parameter names are part of the public interface
+        if op in ("control_on", "control_timer"):
+            return api.control_device(command=Command.ON, minutes=a["minutes"])
+        if op == "control_off":
+            return api.control_device(minutes=a.get("minutes", 0), command=Command.OFF)
+        if op == "set_auto_shutdown":
+            return api.set_auto_shutdown(full_time=datetime.timedelta(seconds=a["seconds"], microseconds=a.get("micros", 0)))
+        if op == "set_device_name":
+            return api.set_device_name(name=a["name"])
+        if op == "delete_schedule":
+            return api.delete_schedule(schedule_id=str(a["slot"]))
+        if op == "create_schedule":
+            alld = list(Days)
+            return api.create_schedule(days={alld[i] for i in a["days"]}, end_time=a["end"], start_time=a["start"])
+        if op == "set_position":
+            return api.set_position(position=a["position"])
     if op == "get_state":
         return api.get_state()
     if op in ("control_on", "control_timer"):
@@ -108,6 +125,16 @@ def call(api, op, args):
         return api.get_breeze_state()
     if op.startswith("breeze_"):
         rem = a.get("remote_obj") or remote(a["remote"], a.get("toggle", False), a.get("pad", 0))[0]
+        if a.get("positional"):
+            return api.control_breeze_device(
+                rem,
+                None if a.get("state") is None else _enum(d.DeviceState, a["state"]),
+                None if a.get("mode") is None else _enum(d.ThermostatMode, a["mode"]),
+                a.get("temp") or 0,
+                None if a.get("fan") is None else _enum(d.ThermostatFanLevel, a["fan"]),
+                None if a.get("swing") is None else _enum(d.ThermostatSwing, a["swing"]),
+                bool(a.get("update", False)),
+            )
         return api.control_breeze_device(
             rem,
             state=None if a.get("state") is None else _enum(d.DeviceState, a["state"]),
